@@ -892,6 +892,70 @@ func gateClosesBeforeDrain(c *core.Ctx, r *core.Report) {
 		}
 	}
 	r.Exists("functions accepting ticks", "-", "%d", nAcc)
+	// accepting a tick and publishing it are one step with respect to the final drain: where a tick's request is handed
+	// to the pending counter (a supersede with a non-constant count), the gate — the pool's stop flag or a context — is
+	// tested inside the critical section that holds the supersede. A test made before the lock is taken (Trigger's
+	// `ctx.Err()`) leaves a window: the tick passes the test, the stop function runs to completion, the tick is published
+	// — and nobody drains after the stop, so its requests are neither started nor reported dropped.
+	nPub := 0
+	for _, fn := range pkgFns {
+		for _, call := range an.AllCalls(fn) {
+			t := an.Callee(call)
+			if t == nil || !pf.setFns[t] || len(call.Common().Args) < 2 {
+				continue
+			}
+			if _, isK := an.Strip(call.Common().Args[1]).(*ssa.Const); isK {
+				continue
+			}
+			nPub++
+			key := core.FuncName(fn) + "#gate-with-publish"
+			ls := an.NewLockState(fn)
+			var held *an.Held
+			for _, h := range ls.At(call) {
+				if h.Mode == 'W' {
+					hh := h
+					held = &hh
+				}
+			}
+			if held == nil {
+				r.Violation(key, an.Pos(c, call), "a tick's request is handed to the pending counter outside any critical section: whether the pool still accepts ticks cannot be decided together with the hand-over")
+				continue
+			}
+			okGate := false
+			an.Instrs(fn, func(in ssa.Instruction) {
+				iff, isIf := in.(*ssa.If)
+				if !isIf || !an.Dominates(iff, call) {
+					return
+				}
+				underLock := false
+				for _, h := range ls.At(iff) {
+					if h.Mode == 'W' && an.SameField(h.Field, held.Field) {
+						underLock = true
+					}
+				}
+				if !underLock {
+					return
+				}
+				cond := an.Strip(iff.Cond)
+				if derivesFromStopFlag(cond, 0) {
+					okGate = true
+					// the flag tested here is a gate: the stop function has to close it before its final supersede
+					for _, fe := range flagOps(fn) {
+						if fe.op == "Load" && an.Before(fe.ev, an.Event{Instr: call, Frame: &an.Frame{Fn: fn}}) {
+							gates[fe.fld] = fn
+						}
+					}
+				}
+				if bo, isBin := cond.(*ssa.BinOp); isBin {
+					if ec, isCall := an.Strip(bo.X).(*ssa.Call); isCall && ec.Common().IsInvoke() && ec.Common().Method.Name() == "Err" && an.IsNamed(ec.Common().Value.Type(), "context", "Context") {
+						okGate = true
+					}
+				}
+			})
+			r.Check(okGate, key, an.Pos(c, call), "whether the pool still accepts ticks is tested in the critical section that hands the request over", "the request is handed to the pending counter under "+held.Base+"."+held.Field.Name()+" without a test, inside that critical section, of the stop flag or the context: a tick that passed the earlier test is published after the stop function has run its final supersede, and its requests are neither started nor reported dropped")
+		}
+	}
+	r.Floor("hand-overs of a tick's request to the pending counter", nPub, 1)
 	if len(gates) == 0 {
 		r.OK("gate#context", "-", "ticks are accepted by the context (or unconditionally): no stop flag gates them; the order of flag and supersede in the stop function does not matter for accepting")
 		return
